@@ -207,7 +207,8 @@ def repeat_doc(rng):
 
 # ---------------------------------------------------------------- C13
 LITS = ["", "a", " ", "-", "é", "x:y", "}", "::", "http://h/", "%", "ü}", "a b", ".", "#", "'", "[", "{", "\\"]
-ENV_VALUES = ["v", "", "1", "true", "null", "a b", "é", "x:y", "{a}", "1.5", "-", "~", "[1]", "{}", "$required", "$env:V1", "a$$b",
+ENV_VALUES = ["v", "", "1", "true", "null", "a b", "é", "x:y", "{a}", "1.5", "-", "~", "[1]", "{}", "-Dfoo=bar", "dGVzdA==", "a=b=c", "=", "k=v",
+              "$required", "$env:V1", "a$$b",
               "$FOO", "$\"{a}\"", "$x"]
 ENV_SAFE = [v for v in ENV_VALUES if "$" not in v]
 
@@ -259,7 +260,8 @@ def encode_subject(rng):
     if k == 3:
         return {"a": 1, "b": "x", "c": ""}
     if k == 4:
-        return {"k": ["v1", "v2"], "e": "", "n": 5}
+        return rng.pick([{"k": ["v1", "v2"], "e": "", "n": 5}, {"token": "YWJjZA==", "op": "=", "e": "", "l": ["a=", "b:", "="]},
+                         {"a": "1=", "b": 2, "c": ":", "d": "x::"}])
     if k == 5:
         return [{"a": 1}, {"b": "", "c": [1, 2]}]
     if k == 6:
